@@ -217,6 +217,21 @@ CHECKS["C12"] = dict(
     note=TRUST + "Not decided: one-to-one correspondence with 3-D connected components, centroid/variance arithmetic, "
          "spatial correction.")
 
+CHECKS["C14"] = dict(
+    category="other", design_ref="DESIGN.md section 3 / C14",
+    technique="resolved self-call arity (ast), CFG guard analysis of the two-pointer merges on the clang AST, unsigned-"
+              "wrap lint, sibling-caller contradiction rule, interface dtype agreement",
+    text="Static: (R1) every self.m(...) in sparseframe.py fits m's signature (found sort()/sort_by() uncallable); (R2) "
+         "reorder permutes row, col and all pixel arrays with one order, sort is row-major; (R3) in sparse_overlaps and "
+         "coverlaps the frame with the smaller (row,col) key advances, equal keys record one hit and advance both, the "
+         "loops run while both frames have pixels, packed keys are built in 32 bits and compared directly - never "
+         "through the sign of an unsigned difference; mask_to_coo rejects shapes beyond 65535; compress_duplicates "
+         "writes its last run; (R4) the two callers of sparse_overlaps -> compress_duplicates agree on the empty-overlap "
+         "guard (found overlaps() lacking it), histograms sized for the largest label, matrix route checks labels; "
+         "(R5) 16-bit unsigned coordinates on both sides of the interface.",
+    note=TRUST + "Assumes sorted, duplicate-free frames. Not decided: exact value round trip dense->sparse->dense and "
+         "exact overlap counts (they follow from the merge discipline only together with numpy/scipy semantics).")
+
 NOT_YET = {}
 
 NOT_APPLICABLE = {
